@@ -22,7 +22,8 @@ package unary
 //@   modifies &i.frame, &i.err
 //@ trusted func (i *Iterator) satisfied() (ok bool)
 //@   modifies nothing
-//@ trusted func (i *Iterator) Valid() (ok bool)
+//@ func (i *Iterator) Valid() (ok bool)
+//@   ensures ok ==> i.err == nil
 //@   modifies nothing
 //@ # Automatic (chunk-sized) steps. What is under contract: the step keeps the bounds and the domain
 //@ # iterator's identity (what Next/Prev rely on), and the sample offsets it hands to the byte-offset
@@ -140,6 +141,13 @@ package unary
 //@   loop 0 invariant domain.SpecIterIdx(i.internal) == old(domain.SpecIterIdx(i.internal)) && domain.SpecIterBounds(i.internal) == old(domain.SpecIterBounds(i.internal))
 //@   loop 0 invariant domain.SpecIterPos(i.internal) >= old(domain.SpecIterPos(i.internal))
 //@   loop 0 invariant forall k int :: old(domain.SpecIterPos(i.internal)) <= k && k < domain.SpecIterPos(i.internal) ==> domain.SpecIterDomainAt(i.internal, k).End <= i.view.End
+//@   # Completeness when the direction changes. The accumulate loop can only move the domain iterator
+//@   # while it is valid; a backward step that ran off the first domain leaves it invalid, and then
+//@   # a domain after the current one that reaches into the view is never visited. The loop is
+//@   # harmless only if the iterator is valid, or the current domain already extends beyond the
+//@   # view, or no later domain starts inside the view. KNOWN FINDING (fails for an invalidated
+//@   # iterator; see /verif/known_findings.json).
+//@   assert_after "i.accumulate(ctx)" domain.SpecIterValid(i.internal) || i.internal.TimeRange().End > i.view.End || (forall k int :: 0 <= k && k < domain.SpecIterLen(i.internal) && domain.SpecIterDomainAt(i.internal, k).Start >= i.internal.TimeRange().End ==> domain.SpecIterDomainAt(i.internal, k).Start >= i.view.End)
 
 //@ func (i *Iterator) Prev(ctx context.Context, span telem.TimeSpan) (ok bool)
 //@   requires wfIter(i) && span >= 0 && domain.SpecIterWF(i.internal) && domain.SpecIterOK(i.internal)
@@ -158,6 +166,10 @@ package unary
 //@   loop 0 invariant domain.SpecIterIdx(i.internal) == old(domain.SpecIterIdx(i.internal)) && domain.SpecIterBounds(i.internal) == old(domain.SpecIterBounds(i.internal))
 //@   loop 0 invariant domain.SpecIterPos(i.internal) <= old(domain.SpecIterPos(i.internal))
 //@   loop 0 invariant forall k int :: domain.SpecIterPos(i.internal) < k && k <= old(domain.SpecIterPos(i.internal)) && 0 <= k && k < domain.SpecIterLen(i.internal) && old(domain.SpecIterValid(i.internal)) ==> domain.SpecIterDomainAt(i.internal, k).Start >= i.view.Start
+//@   # mirrored completeness clause: a forward step that ran off the last domain leaves the domain
+//@   # iterator invalid, and then a domain before the current one that reaches into the view is
+//@   # never visited. KNOWN FINDING (demo: /verif/findings/c10_prev_after_exhausted_next_test.go).
+//@   assert_after "i.accumulate(ctx)" domain.SpecIterValid(i.internal) || i.internal.TimeRange().Start < i.view.Start || (forall k int :: 0 <= k && k < domain.SpecIterLen(i.internal) && domain.SpecIterDomainAt(i.internal, k).End <= i.internal.TimeRange().Start ==> domain.SpecIterDomainAt(i.internal, k).End <= i.view.Start)
 
 //@ # which bound of the distance approximation is used as the sample offset (selection table)
 //@ func pickSampleOffset(approx index.DistanceApproximation) (off int64)
